@@ -1,3 +1,198 @@
-import Econf.Parser
+import Econf.Writer
+import Econf.Lemmas.ListLemmas
+import Econf.Lemmas.ParserLemmas
+
+/-!
+  C15 — parsing options do what they say.
+
+  Proved here: the option-string tokenizer (`econf_newKeyFile_with_options`): every `;`-separated
+  list of documented items is accepted and every item has its documented effect, an item given
+  twice acting as its last occurrence (`C15_options`); an item with an unknown name is answered
+  with option-not-found (`C15_unknown`).  For JOIN_SAME_ENTRIES and PYTHON_STYLE: the join of
+  repeated definitions (`C15_join_*`) and the python-style continuation rule per line
+  (`C15_python_continues`).  The statement for whole option-grammar documents rests on the
+  correspondence run (it needs the round-trip theorem of C02).
+-/
+
+set_option linter.unusedSimpArgs false
+
 namespace Econf
+
+def SEMI : Byte := 0x3B
+def COLON : Byte := 0x3A
+
+/-- the documented option items -/
+inductive OptItem where
+  | join
+  | python
+  | parsingDirs (ds : List Str)
+  | configDirs (ps : List Str)
+  | rootPrefix (d : Str)
+
+def OptItem.render : OptItem → Str
+  | .join => optJoin
+  | .python => optPython
+  | .parsingDirs ds => optParsingDirs ++ joinWith COLON ds
+  | .configDirs ps => optConfigDirs ++ joinWith COLON ps
+  | .rootPrefix d => optRootPrefix ++ d
+
+/-- directory names contain neither `;` nor `:`; lists are non-empty -/
+def OptItem.WF : OptItem → Prop
+  | .join => True
+  | .python => True
+  | .parsingDirs ds => ds ≠ [] ∧ ∀ d ∈ ds, SEMI ∉ d ∧ COLON ∉ d
+  | .configDirs ps => ps ≠ [] ∧ ∀ d ∈ ps, SEMI ∉ d ∧ COLON ∉ d
+  | .rootPrefix d => SEMI ∉ d
+
+/-- the documented effect of one item -/
+def OptItem.effect (kf : KeyFile) : OptItem → KeyFile
+  | .join => { kf with join := true }
+  | .python => { kf with python := true }
+  | .parsingDirs ds => { kf with parseDirs := ds }
+  | .configDirs ps => { kf with confDirs := ps }
+  | .rootPrefix d => { kf with rootPrefix := some d }
+
+theorem applyOption_item (kf : KeyFile) (it : OptItem) (h : it.WF) : applyOption kf it.render = .ok (it.effect kf) := by
+  cases it with
+  | join => simp [applyOption, OptItem.render, OptItem.effect]
+  | python =>
+    have : (optPython == optJoin) = false := by decide
+    simp [applyOption, OptItem.render, OptItem.effect, this]
+  | parsingDirs ds =>
+    have h1 : ∀ x : Str, ((optParsingDirs ++ x) == optJoin) = false := by intro x; simp [optParsingDirs, optJoin]
+    have h2 : ∀ x : Str, ((optParsingDirs ++ x) == optPython) = false := by intro x; simp [optParsingDirs, optPython]
+    simp only [applyOption, OptItem.render, OptItem.effect, h1, h2, Bool.false_eq_true, if_false, startsWith_append, if_true,
+      List.drop_left']
+    rw [show (58 : Byte) = COLON from rfl, splitOn_joinWith COLON ds h.1 (fun d hd => (h.2 d hd).2)]
+  | configDirs ps =>
+    have h1 : ∀ x : Str, ((optConfigDirs ++ x) == optJoin) = false := by intro x; simp [optConfigDirs, optJoin]
+    have h2 : ∀ x : Str, ((optConfigDirs ++ x) == optPython) = false := by intro x; simp [optConfigDirs, optPython]
+    have h3 : ∀ x : Str, startsWith (optConfigDirs ++ x) optParsingDirs = false := by intro x; simp [startsWith, optConfigDirs, optParsingDirs]
+    simp only [applyOption, OptItem.render, OptItem.effect, h1, h2, h3, Bool.false_eq_true, if_false, startsWith_append, if_true]
+    rw [show (optConfigDirs ++ joinWith COLON ps).drop optConfigDirs.length = joinWith COLON ps by simp]
+    rw [show (58 : Byte) = COLON from rfl, splitOn_joinWith COLON ps h.1 (fun d hd => (h.2 d hd).2)]
+  | rootPrefix d =>
+    have h1 : ∀ x : Str, ((optRootPrefix ++ x) == optJoin) = false := by intro x; simp [optRootPrefix, optJoin]
+    have h2 : ∀ x : Str, ((optRootPrefix ++ x) == optPython) = false := by intro x; simp [optRootPrefix, optPython]
+    have h3 : ∀ x : Str, startsWith (optRootPrefix ++ x) optParsingDirs = false := by intro x; simp [startsWith, optRootPrefix, optParsingDirs]
+    have h4 : ∀ x : Str, startsWith (optRootPrefix ++ x) optConfigDirs = false := by intro x; simp [startsWith, optRootPrefix, optConfigDirs]
+    simp only [applyOption, OptItem.render, OptItem.effect, h1, h2, h3, h4, Bool.false_eq_true, if_false, startsWith_append, if_true]
+    rw [show (optRootPrefix ++ d).drop optRootPrefix.length = d by simp]
+
+theorem semi_not_in_render (it : OptItem) (h : it.WF) : SEMI ∉ it.render := by
+  have hj : ∀ (l : List Str), (∀ d ∈ l, SEMI ∉ d ∧ COLON ∉ d) → SEMI ∉ joinWith COLON l := by
+    intro l hl
+    induction l with
+    | nil => simp [joinWith]
+    | cons d ds ih =>
+      cases ds with
+      | nil => simpa [joinWith] using (hl d List.mem_cons_self).1
+      | cons e es =>
+        simp only [joinWith, List.mem_append, List.mem_cons, not_or]
+        refine ⟨(hl d List.mem_cons_self).1, by decide, ?_⟩
+        exact ih (fun x hx => hl x (List.mem_cons_of_mem _ hx))
+  cases it with
+  | join => decide
+  | python => decide
+  | parsingDirs ds =>
+    simp only [OptItem.render, List.mem_append, not_or]
+    exact ⟨by decide, hj ds h.2⟩
+  | configDirs ps =>
+    simp only [OptItem.render, List.mem_append, not_or]
+    exact ⟨by decide, hj ps h.2⟩
+  | rootPrefix d =>
+    simp only [OptItem.render, List.mem_append, not_or]
+    exact ⟨by decide, h⟩
+
+theorem applyOptions_items (kf : KeyFile) (items : List OptItem) (h : ∀ it ∈ items, it.WF) :
+    applyOptions kf (items.map OptItem.render) = (items.foldl OptItem.effect kf, .success) := by
+  induction items generalizing kf with
+  | nil => rfl
+  | cons it its ih =>
+    simp only [List.map_cons, applyOptions, applyOption_item kf it (h it List.mem_cons_self), List.foldl_cons]
+    exact ih _ (fun x hx => h x (List.mem_cons_of_mem _ hx))
+
+/-- every option string made of documented items is accepted, and the object carries the effect of
+    every item, an item given twice acting as its last occurrence (the effects are applied in order) -/
+theorem C15_options (items : List OptItem) (hne : items ≠ []) (h : ∀ it ∈ items, it.WF) :
+    newWithOptions (some (joinWith SEMI (items.map OptItem.render))) = (items.foldl OptItem.effect {}, .success) := by
+  unfold newWithOptions
+  have hpne : items.map OptItem.render ≠ [] := by simpa using hne
+  have hnonempty : (joinWith SEMI (items.map OptItem.render)).isEmpty = false := by
+    cases items with
+    | nil => exact absurd rfl hne
+    | cons it its =>
+      have : it.render ≠ [] := by cases it <;> simp [OptItem.render, optJoin, optPython, optParsingDirs, optConfigDirs, optRootPrefix]
+      cases its with
+      | nil => simpa [joinWith] using this
+      | cons i2 i3 =>
+        simp only [List.map_cons, joinWith]
+        cases hr : it.render with
+        | nil => exact absurd hr this
+        | cons a as => rfl
+  simp only [hnonempty, Bool.false_eq_true, if_false]
+  rw [show (0x3B : Byte) = SEMI from rfl, splitOn_joinWith SEMI _ hpne]
+  · exact applyOptions_items {} items h
+  · intro p hp
+    obtain ⟨it, hit, rfl⟩ := List.mem_map.mp hp
+    exact semi_not_in_render it (h it hit)
+
+/-- an item whose name is not one of the five documented ones is answered with option-not-found -/
+theorem C15_unknown (kf : KeyFile) (o : Str) (h1 : o ≠ optJoin) (h2 : o ≠ optPython)
+    (h3 : startsWith o optParsingDirs = false) (h4 : startsWith o optConfigDirs = false) (h5 : startsWith o optRootPrefix = false) :
+    applyOption kf o = .error .optionNotFound := by
+  have a : (o == optJoin) = false := by simpa using h1
+  have b : (o == optPython) = false := by simpa using h2
+  simp [applyOption, a, b, h3, h4, h5]
+
+/-- … and the whole option string is refused at that item -/
+theorem C15_unknown_string (kf : KeyFile) (pre : List OptItem) (o : Str) (rest : List Str) (hpre : ∀ it ∈ pre, it.WF)
+    (ho : applyOption (pre.foldl OptItem.effect kf) o = .error .optionNotFound) :
+    (applyOptions kf (pre.map OptItem.render ++ o :: rest)).2 = .optionNotFound := by
+  induction pre generalizing kf with
+  | nil =>
+    have ho' : applyOption kf o = .error .optionNotFound := ho
+    simp [applyOptions, ho']
+  | cons it its ih =>
+    simp only [List.map_cons, List.cons_append, applyOptions, applyOption_item kf it (hpre it List.mem_cons_self)]
+    exact ih _ (fun x hx => hpre x (List.mem_cons_of_mem _ hx)) ho
+
+/-! ### JOIN_SAME_ENTRIES and PYTHON_STYLE, per step -/
+
+/-- joining a later definition into the first one: an empty later definition resets the value,
+    a non-empty one is appended on a new line with its leading blanks removed -/
+theorem C15_join_step (ei ej : Entry) :
+    (ej.value = none ∨ ej.value = some [] → (joinInto ei ej).value = some [] ∧ (joinInto ei ej).ca = none) ∧
+    (∀ v, ej.value = some v → v ≠ [] → (joinInto ei ej).value = some (nlCat (ei.value.getD []) (v.dropWhile isSpace))) := by
+  constructor
+  · intro h
+    rcases h with h | h <;> simp [joinInto, h]
+  · intro v hv hne
+    have : v.isEmpty = false := by cases v <;> simp_all
+    simp [joinInto, hv, this]
+
+/-- without the option the entries are left alone (first definition wins on lookup, C02) -/
+theorem C15_no_join (delim comment : Str) (python : Bool) (content : Str) (st : PState)
+    (hp : parseLines { delim := delim, comment := if comment.isEmpty then [0x23] else comment, python := python, join := false } {} (splitLines content) = .ok st) :
+    parseBytes { delim := delim, comment := comment, python := python, join := false } content = .ok st := by
+  unfold parseBytes
+  simp only [hp, Bool.false_eq_true, if_false]
+
+/-- PYTHON_STYLE: an indented line directly below an entry continues it, even if it contains the
+    delimiter — the delimiter test is not even made -/
+theorem C15_python_continues (cfg : Cfg) (st : PState) (org : Str) (o : Byte) (orest : Str) (delimSeen : Bool) (data : Str)
+    (hpy : cfg.python = true) (horg : org = o :: orest) (hind : isSpace o = true) (hmix : mixedDelim cfg.delim = false)
+    (hprev : lastEntryOnPrevLine st = true) : isContinuation cfg st org delimSeen data = true := by
+  unfold isContinuation
+  simp [hpy, horg, hind, hmix, hprev]
+
+/-- … and its indentation is removed, the rest (comment characters included) is kept -/
+theorem C15_python_append (e : Entry) (v : Str) (ca : Option Str) (line : Nat) :
+    (appendToEntry true e v ca line).value = some (nlCat (e.value.getD []) (v.dropWhile isSpace)) := by
+  simp [appendToEntry]
+
+/-- non-vacuity: the documented items in one string, one of them twice -/
+example : (newWithOptions (some (joinWith SEMI ([OptItem.parsingDirs [[0x2f, 0x61]], .join, .parsingDirs [[0x2f, 0x62], [0x2f, 0x63]], .rootPrefix [0x2f, 0x72]].map OptItem.render)))).1.parseDirs = [[0x2f, 0x62], [0x2f, 0x63]] := by
+  decide
+
 end Econf
